@@ -118,6 +118,9 @@ fn lattice_line(out: &mut Out, p: &ValidationParams, q: &ValidationParams) {
     out.line(&format!("C vp-entails {} {}", sp, sq), e);
     let e = guard(|| if p.eq(q) { "1" } else { "0" }).unwrap_or("PANIC");
     out.line(&format!("C vp-eq {} {}", sp, sq), e);
+    // judged against the component-wise order: intersect is the meet, entails is <=
+    let ent = guard(|| if p.entails(q) { "1" } else { "0" }).unwrap_or("PANIC");
+    out.line(&format!("J vp-order {} {} {} {}", sp, sq, i, ent), "ok");
 }
 
 fn lim_choices(rng: &mut Rng, i: usize) -> usize {
@@ -522,6 +525,16 @@ where Ctx::Key: PkOf + miniscript::ToPublicKey {
             let r = verdict(guard(|| ms.validate_non_top_level(&p)));
             out.line(&format!("C vnt {} {} {}", cn, show_params(&p), wire), &r);
         }
+        // monotonicity on this script: accepted under P∩Q => accepted under P and under Q
+        for _ in 0..2 {
+            let p = variants[rng.below(variants.len())];
+            let mut q = variants[rng.below(variants.len())];
+            if rng.coin() { let li = rng.below(5); if let Some(f) = figures(ms)[li] { set_lim(&mut q, li, f + rng.below(2)); } }
+            let r = p.intersect(&q);
+            let (vr, vp, vq) = (verdict(guard(|| ms.validate(&r))), verdict(guard(|| ms.validate(&p))), verdict(guard(|| ms.validate(&q))));
+            out.line(&format!("J mono {} {} {} {} {} {}", cn, show_params(&r), show_params(&p), wire, vr, vp), "ok");
+            out.line(&format!("J mono {} {} {} {} {} {}", cn, show_params(&r), show_params(&q), wire, vr, vq), "ok");
+        }
         // limits at the script's own figures -1 / 0 / +1 (and the judge for each)
         let figs = figures(ms);
         for (li, base) in [(0usize, ValidationParams::MAX), (1, ValidationParams::MAX), (2, ValidationParams::MAX), (3, ValidationParams::MAX), (4, ValidationParams::MAX), (rng.below(5), ctx_const(ctx, true))] {
@@ -545,7 +558,6 @@ where Ctx::Key: PkOf + miniscript::ToPublicKey {
                 let is_max = base.eq(&ValidationParams::MAX);
                 let with = verdict(guard(|| ms.validate(&base)));
                 for i in 0..N_SW {
-                    if i == 12 { continue; } // `unsatisfiable`: no independent defect predicate (model-level theorem only)
                     if !is_max && i != 0 && i != 13 { continue; }
                     if !get_sw(&base, i) { continue; }
                     let mut p = base; set_sw(&mut p, i, false);
@@ -597,20 +609,60 @@ where Ctx::Key: PkOf + miniscript::ToPublicKey {
             if v == "ok" { judge_accept(out, bud, "tr_str/Tr::from_str", ctx, n, &wire, base_b); }
         }
     }
-    // 5. decode (native key type of the context)
+    // 5. decode (native key type of the context); a Legacy-encoded script is also decoded as
+    //    Segwitv0 and Bare (uncompressed keys reach the unchecked pk_k / multi leaves that way)
     if let Some(Ok(native)) = guard(|| to_ms::<Ctx::Key, Ctx>(n)) {
         let script = native.encode();
-        // the AST the decoder sees (pk_h becomes expr_raw_pkh, sortedmulti becomes multi, ...)
-        if let Some(Ok(dec)) = guard(|| Miniscript::<Ctx::Key, Ctx>::decode_with_validation_params(&script, &ValidationParams::MAX)) {
-            if let Some(dn) = from_ms(&dec) {
-                let dw = dn.wire();
-                let r = guard(|| Miniscript::<Ctx::Key, Ctx>::decode(&script));
-                out.line(&format!("C accept ms_sane/decode {} {}", cn, dw), okerr_ref(&r));
-                if let Some(Ok(m)) = &r { judge_accept(out, bud, "ms_sane/decode", ctx, &dn, &dw, m.ty.corr.base == Base::B); }
-                let r = guard(|| Miniscript::<Ctx::Key, Ctx>::decode_consensus(&script));
-                out.line(&format!("C accept ms_consensus/decode_consensus {} {}", cn, dw), okerr_ref(&r));
-                if let Some(Ok(m)) = &r { judge_accept(out, bud, "ms_consensus/decode_consensus", ctx, &dn, &dw, m.ty.corr.base == Base::B); }
-            } else { out.count("decode-unmapped"); }
+        decode_lines::<Ctx>(out, bud, ctx, &script, &wire, rng, "own");
+        if ctx == CtxK::Legacy {
+            decode_lines::<Segwitv0>(out, bud, CtxK::Segwitv0, &script, &wire, rng, "from-legacy");
+            decode_lines::<BareCtx>(out, bud, CtxK::Bare, &script, &wire, rng, "from-legacy");
+        }
+    }
+}
+
+fn decode_verdict<T>(r: Option<Result<T, miniscript::Error>>) -> String {
+    match r {
+        None => "PANIC".into(),
+        Some(Ok(_)) => "ok".into(),
+        Some(Err(miniscript::Error::Validation(e))) => format!("ERR:{}", verr_name(&e)),
+        Some(Err(_)) => "ERR".into(),
+    }
+}
+
+fn decode_lines<Ctx: ScriptContext>(out: &mut Out, bud: &mut Budget, ctx: CtxK, script: &miniscript::bitcoin::Script, orig_wire: &str, rng: &mut Rng, tag: &str)
+where Ctx::Key: PkOf {
+    let cn = ctx.name();
+    // the AST the decoder sees (pk_h becomes expr_raw_pkh, sortedmulti becomes multi, ...)
+    let dec = match guard(|| Miniscript::<Ctx::Key, Ctx>::decode_with_validation_params(script, &ValidationParams::MAX)) {
+        Some(Ok(d)) => { out.line(&format!("C decodemax {} {} {}", cn, orig_wire, tag), "ok"); d }
+        Some(Err(_)) => { out.line(&format!("C decodemax {} {} {}", cn, orig_wire, tag), "ERR"); return; }
+        None => { out.line(&format!("C decodemax {} {} {}", cn, orig_wire, tag), "PANIC"); return; }
+    };
+    let dn = match from_ms(&dec) { Some(n) => n, None => { out.count("decode-unmapped"); return; } };
+    let dw = dn.wire();
+    out.line(&format!("C decodevp {} {} {} {}", cn, show_params(&ValidationParams::MAX), dw, tag), "ok");
+    if tag == "own" {
+        let r = guard(|| Miniscript::<Ctx::Key, Ctx>::decode(script));
+        out.line(&format!("C accept ms_sane/decode {} {}", cn, dw), okerr_ref(&r));
+        if let Some(Ok(m)) = &r { judge_accept(out, bud, "ms_sane/decode", ctx, &dn, &dw, m.ty.corr.base == Base::B); }
+        let r = guard(|| Miniscript::<Ctx::Key, Ctx>::decode_consensus(script));
+        out.line(&format!("C accept ms_consensus/decode_consensus {} {}", cn, dw), okerr_ref(&r));
+        if let Some(Ok(m)) = &r { judge_accept(out, bud, "ms_consensus/decode_consensus", ctx, &dn, &dw, m.ty.corr.base == Base::B); }
+    }
+    // decode_with_validation_params under the named parameter sets and single-switch flips:
+    // must equal "decode, then validate" (the model validates the decoded AST)
+    let variants = param_variants(ctx);
+    let mut ps: Vec<ValidationParams> = vec![ctx_const(ctx, false), ctx_const(ctx, true), ValidationParams::SANE, ValidationParams::CONSENSUS];
+    for _ in 0..3 { ps.push(variants[rng.below(variants.len())]); }
+    { let mut p = ctx_const(ctx, false); let li = rng.below(5); if let Some(f) = figures(&dec)[li] { set_lim(&mut p, li, f.saturating_sub(rng.below(2))); } ps.push(p); }
+    for p in ps {
+        let r = guard(|| Miniscript::<Ctx::Key, Ctx>::decode_with_validation_params(script, &p));
+        let accepted = matches!(r, Some(Ok(_)));
+        out.line(&format!("C decodevp {} {} {} {}", cn, show_params(&p), dw, tag), &decode_verdict(r));
+        // what a decoder accepts under the context's own parameters obeys the context
+        if accepted && (p.eq(&ctx_const(ctx, false)) || p.eq(&ctx_const(ctx, true))) && tag != "own" {
+            judge_accept(out, bud, "ms_consensus/decode_with_validation_params", ctx, &dn, &dw, dec.ty.corr.base == Base::B);
         }
     }
 }
@@ -783,6 +835,121 @@ fn sortedmulti(out: &mut Out, bud: &mut Budget) {
     }
 }
 
+/* ------------------------------------------------------------------ key-only descriptors */
+
+fn key_only(out: &mut Out) {
+    use miniscript::descriptor::{Pkh, Wpkh};
+    // compressed, uncompressed, x-only, multipath xpub
+    for id in [0u32, 1, 100, 101, 200, 201, 300, 310] {
+        let k = Dpk::of(id).unwrap();
+        let ks = key_string(id);
+        let mut emit = |out: &mut Out, kind: &str, entry: &str, v: &'static str| {
+            out.line(&format!("C keyonly {} {} {}", kind, id, entry), v);
+            out.line(&format!("J keyok {} {} {} {}", entry, kind, id, v), "ok");
+        };
+        emit(out, "pkh", "Pkh::new", okerr(guard(|| Pkh::new(k.clone()))));
+        emit(out, "pkh", "Descriptor::new_pkh", okerr(guard(|| Descriptor::new_pkh(k.clone()))));
+        emit(out, "pkh", "Pkh::from_str", okerr(guard(|| Pkh::<Dpk>::from_str(&format!("pkh({})", ks)))));
+        emit(out, "pkh", "Descriptor::from_str", okerr(guard(|| Descriptor::<Dpk>::from_str(&format!("pkh({})", ks)))));
+        emit(out, "wpkh", "Wpkh::new", okerr(guard(|| Wpkh::new(k.clone()))));
+        emit(out, "wpkh", "Descriptor::new_wpkh", okerr(guard(|| Descriptor::new_wpkh(k.clone()))));
+        emit(out, "wpkh", "Wpkh::from_str", okerr(guard(|| Wpkh::<Dpk>::from_str(&format!("wpkh({})", ks)))));
+        emit(out, "wpkh", "Descriptor::from_str", okerr(guard(|| Descriptor::<Dpk>::from_str(&format!("wpkh({})", ks)))));
+        emit(out, "sh_wpkh", "Sh::new_wpkh", okerr(guard(|| Sh::new_wpkh(k.clone()))));
+        emit(out, "sh_wpkh", "Descriptor::new_sh_wpkh", okerr(guard(|| Descriptor::new_sh_wpkh(k.clone()))));
+        emit(out, "sh_wpkh", "Sh::from_str", okerr(guard(|| Sh::<Dpk>::from_str(&format!("sh(wpkh({}))", ks)))));
+        emit(out, "sh_wpkh", "Descriptor::from_str", okerr(guard(|| Descriptor::<Dpk>::from_str(&format!("sh(wpkh({}))", ks)))));
+        emit(out, "pk", "Descriptor::new_pk", match guard(|| Descriptor::new_pk(k.clone())) { Some(_) => "ok", None => "PANIC" });
+        emit(out, "pk", "Bare::from_str", okerr(guard(|| Bare::<Dpk>::from_str(&format!("pk({})", ks)))));
+        emit(out, "pk", "Descriptor::from_str", okerr(guard(|| Descriptor::<Dpk>::from_str(&format!("pk({})", ks)))));
+        emit(out, "tr", "Tr::new", okerr(guard(|| Tr::new(k.clone(), None))));
+        emit(out, "tr", "Descriptor::new_tr", okerr(guard(|| Descriptor::new_tr(k.clone(), None))));
+        emit(out, "tr", "Tr::from_str", okerr(guard(|| Tr::<Dpk>::from_str(&format!("tr({})", ks)))));
+        emit(out, "tr", "Descriptor::from_str", okerr(guard(|| Descriptor::<Dpk>::from_str(&format!("tr({})", ks)))));
+    }
+}
+
+/* ------------------------------------------------------------------ taproot trees */
+
+#[derive(Clone)]
+enum TT { Leaf(Node), Br(Box<TT>, Box<TT>) }
+impl TT {
+    fn wire(&self) -> String { match self { TT::Leaf(n) => n.wire(), TT::Br(l, r) => format!("{{{},{}}}", l.wire(), r.wire()) } }
+    fn text(&self) -> String { match self { TT::Leaf(n) => ms_text(n), TT::Br(l, r) => format!("{{{},{}}}", l.text(), r.text()) } }
+    /// bottom-up through the public API; None = a leaf cannot be built, Some(Err) = depth error
+    fn build(&self) -> Option<Result<TapTree<Dpk>, ()>> {
+        // iterative post-order (trees are up to 129 deep)
+        enum W<'a> { Visit(&'a TT), Combine }
+        let mut work = vec![W::Visit(self)];
+        let mut stack: Vec<TapTree<Dpk>> = vec![];
+        while let Some(w) = work.pop() {
+            match w {
+                W::Visit(TT::Leaf(n)) => { let ms = to_ms::<Dpk, Tap>(n).ok()?; stack.push(TapTree::leaf(ms)); }
+                W::Visit(TT::Br(l, r)) => { work.push(W::Combine); work.push(W::Visit(r)); work.push(W::Visit(l)); }
+                W::Combine => { let r = stack.pop().unwrap(); let l = stack.pop().unwrap(); match TapTree::combine(l, r) { Ok(t) => stack.push(t), Err(_) => return Some(Err(())) } }
+            }
+        }
+        Some(Ok(stack.pop().unwrap()))
+    }
+}
+
+fn tr_trees(out: &mut Out, thorough: bool, rng: &mut Rng) {
+    use Node::*;
+    let good: Vec<Node> = vec![pk(200), pk(201), and_v(v(pk(202)), Older(10)), MultiA(1, vec![203, 204]), and_v(v(pk(205)), Hash(HK::Sha256, 0)),
+        OrD(bx(pk(206)), bx(pk(207))), pk(0) /* compressed key = its x-only key */];
+    let bad: Vec<Node> = vec![PkK(200), v(pk(200)), pk(100), pkh(100), Multi(1, vec![200, 201]), and_v(v(pk(200)), Older(0)),
+        and_v(v(pk(200)), pk(200)) /* duplicate keys: SANE only */, True /* sigless: SANE only */, Check(bx(RawPkH(200))) /* raw pkh: SANE only */];
+    let ik = Dpk::of(299).unwrap();
+    let mut trees: Vec<TT> = vec![];
+    let leaf = |rng: &mut Rng, p_bad: usize| -> TT { if rng.below(100) < p_bad { TT::Leaf(bad[rng.below(bad.len())].clone()) } else { TT::Leaf(good[rng.below(good.len())].clone()) } };
+    fn rand_shape(rng: &mut Rng, n: usize, leaf: &dyn Fn(&mut Rng) -> TT) -> TT {
+        if n == 1 { return leaf(rng); }
+        let l = 1 + rng.below(n - 1);
+        TT::Br(Box::new(rand_shape(rng, l, leaf)), Box::new(rand_shape(rng, n - l, leaf)))
+    }
+    let n_rand = if thorough { 400 } else { 90 };
+    for i in 0..n_rand {
+        let n = 2 + rng.below(7);
+        let p_bad = if i % 3 == 0 { 0 } else { 18 };
+        trees.push(rand_shape(rng, n, &|r: &mut Rng| leaf(r, p_bad)));
+    }
+    // every bad leaf once in a two-leaf tree, on either side
+    for b in &bad { trees.push(TT::Br(Box::new(TT::Leaf(good[0].clone())), Box::new(TT::Leaf(b.clone())))); trees.push(TT::Br(Box::new(TT::Leaf(b.clone())), Box::new(TT::Leaf(good[1].clone())))); }
+    // caterpillars around the depth limit, both directions, and one with a bad deepest leaf
+    for d in [126usize, 127, 128, 129, 130] {
+        for left in [true, false] {
+            let mut t = TT::Leaf(pk(200 + (d % 50) as u32));
+            for i in 0..d { let l = TT::Leaf(pk(200 + (i % 90) as u32)); t = if left { TT::Br(Box::new(t), Box::new(l)) } else { TT::Br(Box::new(l), Box::new(t)) }; }
+            trees.push(t);
+        }
+    }
+    { let mut t = TT::Leaf(PkK(200)); for i in 0..128 { t = TT::Br(Box::new(TT::Leaf(pk(200 + (i % 90) as u32))), Box::new(t)); } trees.push(t); }
+    // balanced, 64 leaves
+    { let mut level: Vec<TT> = (0..64).map(|i| TT::Leaf(pk(200 + i as u32))).collect();
+      while level.len() > 1 { level = level.chunks(2).map(|c| TT::Br(Box::new(c[0].clone()), Box::new(c[1].clone()))).collect(); }
+      trees.push(level.pop().unwrap()); }
+    out.note("tr_trees", trees.len().to_string());
+    for t in &trees {
+        let w = t.wire();
+        let mut emit = |out: &mut Out, entry: &str, v: &'static str| {
+            out.line(&format!("C traccept {} {}", entry, w), v);
+            if v == "ok" { out.line(&format!("J trok {} {}", entry, w), "ok"); }
+        };
+        match guard(|| t.build()) {
+            None => emit(out, "tr_new/TapTree::combine+Tr::new", "PANIC"),
+            Some(None) => out.count("tr-tree-leaf-not-constructible"),
+            Some(Some(Err(()))) => { emit(out, "tr_new/TapTree::combine+Tr::new", "ERR"); out.count("tr-tree-combine-depth-error"); }
+            Some(Some(Ok(tree))) => {
+                emit(out, "tr_new/TapTree::combine+Tr::new", okerr(guard(|| Tr::new(ik.clone(), Some(tree.clone())))));
+                emit(out, "tr_new/Descriptor::new_tr", okerr(guard(|| Descriptor::new_tr(ik.clone(), Some(tree.clone())))));
+            }
+        }
+        let s = format!("tr({},{})", key_string(299), t.text());
+        emit(out, "tr_str/Tr::from_str", okerr(guard(|| Tr::<Dpk>::from_str(&s))));
+        emit(out, "desc/Descriptor::from_str", okerr(guard(|| Descriptor::<Dpk>::from_str(&s))));
+    }
+}
+
 /* ------------------------------------------------------------------ run */
 
 pub fn run(out: &mut Out, thorough: bool, seed: u64) {
@@ -812,6 +979,8 @@ pub fn run(out: &mut Out, thorough: bool, seed: u64) {
         }
     }
     sortedmulti(out, &mut bud);
+    key_only(out);
+    tr_trees(out, thorough, &mut rng);
     out.note("domain", format!("{} enumerated ASTs (all base types, 4 contexts, depth 3) + stress lists; 2^15 switch vectors", total));
     out.note("distinct_nontrivial", total.to_string());
 }
